@@ -123,6 +123,11 @@ def check(rep, ctx):
             where, fn = site_loc(ctx, site)
             rep.check(R_D, "size=None" not in detail, construct=fn, stmt=stmt_at(ctx, site),
                       message="unsized read: consumes whatever follows the message", **where)
+        elif d == "r" and skind == "param" and (kind in ("seek", "tell") or kind.startswith("other:")) and site.startswith("kio.serial"):
+            where, fn = site_loc(ctx, site)
+            rep.check(R_D, False, construct=fn, stmt=stmt_at(ctx, site),
+                      message=f"the decoder moves the source with {kind.replace('other:', '')}() instead of reading: the position can pass the end of "
+                              f"the data it was given without any error", **where)
     # e
     for key, cls, plan in W.classes():
         if plan["error"]:
